@@ -11,5 +11,6 @@ func Point(owner any, name string)                      {}
 func Fault(owner any, name string) error                { return nil }
 func FaultOn(owner any, name string, subject any) error { return nil }
 func Go(owner any, name string)                         {}
+func Done(owner any, name string)                       {}
 func Access(owner any, obj string, write bool)          {}
 func Knob(name string, def int) int                     { return def }
